@@ -375,8 +375,10 @@ func TestDriver(t *testing.T) {
 				}
 				wr := vh.Rand(int64(7000 + wid))
 				epoch := 7
-				mid := []int{3, 4, 5, 6, 8, 9}[wr.Intn(6)]
-				w := newWorld(t, wid, srih, vt, vh.Seed()*7919+int64(wid), []int{0, mid, epoch}, epoch, 13)
+				// 13: the block offered there (14) ends the second epoch - the first one at which elected committee members with
+				// votes exist, so that NEO's PostPersist writes voters' rewards (and refreshes its in-memory cache of them)
+				mid := []int{3, 4, 5, 6, 8, 9, 13, 13}[wr.Intn(8)]
+				w := newWorld(t, wid, srih, vt, vh.Seed()*7919+int64(wid), []int{0, mid, epoch}, epoch, 17)
 				wid++
 				if w.refRejected != "" {
 					res.Violate(map[string]any{"kind": "Complete", "via": "block", "class": "generated-valid-block-rejected"}, w.refRejected,
